@@ -23,7 +23,7 @@ type removeSite struct {
 }
 
 type pairModel struct {
-	loopPred  eng.Pred // the effect currently searched for (see loopCovers)
+	loopPred     eng.Pred // the effect currently searched for (see loopCovers)
 	fieldBusy    map[*types.Var]bool
 	c            *Ctx
 	memMsgs      *types.Var // mem.mbox.messages
